@@ -256,7 +256,7 @@ let validate_once (lines : string list) : string =
   | Some e -> e
   | None -> Printf.sprintf "once=OK once_events=%d starts=%d forced_starts=%d" !nev (List.length !st.starts) (List.length !st.fstarts)
 
-(* lock / job protocol traces (Sched/Locks.v) *)
+(* lock / job protocol traces (Sched/Locks.v with the build lock's obligations, Sched/BuildLock.v) *)
 let validate_locks (lines : string list) : string =
   let st = ref empty in
   let nev = ref 0 in
@@ -264,7 +264,7 @@ let validate_locks (lines : string list) : string =
   let starts = Hashtbl.create 64 in      (* (runid, fid) -> number of job starts *)
   let zi = z_of_int in
   let step k l e =
-    match lapply e !st with
+    match blapply e !st with
     | Some s' -> st := s'; incr nev
     | None -> if !err = None then err := Some (Printf.sprintf "REJECT line %d (%s)" k l) in
   List.iteri (fun k l ->
@@ -272,8 +272,9 @@ let validate_locks (lines : string list) : string =
     match String.split_on_char ' ' l with
     | "lck" :: pid :: runid :: kind :: fid :: _ ->
         let p = zi (int_of_string pid) and f = zi (int_of_string fid) in
-        (* fid 0 is the broken-lock self test, fids from LOG_LOCK_MAGIC up are (shared) log locks *)
-        if int_of_string fid = 0 || int_of_string fid >= 0x10000000 then () else
+        (* fid 0 is the broken-lock self test, fids from LOG_LOCK_MAGIC up to BUILD_LOCK_MAGIC are
+           (shared) log locks; from BUILD_LOCK_MAGIC up, build locks *)
+        if int_of_string fid = 0 || (int_of_string fid >= 0x10000000 && int_of_string fid < 0x20000000) then () else
         (match kind with
          | "acquired" -> step k l (LAcquired (p, f))
          | "busy" -> step k l (LBusy (p, f))
